@@ -986,8 +986,15 @@ def targeted_cases(rng, k):
                 local = 4 * h
                 loc = junction + local * (6 + rng.uniform(-0.3, 0.3))
                 c['expl_abs'] = [[junction - h * 13.5, junction + local * 17.5]]
+            # every peak shape sits near the minimum-width threshold (for a pseudo-Voigt the FWHM is 2*scale whatever its
+            # fraction): true FWHM 1 % … 24 % below the threshold, mostly-Gaussian to mostly-Lorentzian mixtures
+            kind4 = rng.choice(['gaussian', 'gaussian', 'lorentzian', 'pseudo_voigt', 'pseudo_voigt'])
+            if kind4 != 'gaussian':
+                frac = rng.uniform(frac, 0.99)
             fwhm = frac * fmin * local
-            pk = dict(c['peaks'][0], kind='gaussian', loc=loc, scale=fwhm / GFWHM, amp=rng.uniform(60, 200))
+            pk = dict(c['peaks'][0], kind=kind4, loc=loc, scale=fwhm / (GFWHM if kind4 == 'gaussian' else 2.0), amp=rng.uniform(60, 200),
+                      frac=rng.uniform(0.0, 0.6))
+            c['peak_spec'] = {'form': 'name', 'kinds': [kind4]}
             c['peaks'] = [pk]
             c['bg'] = [rng.uniform(3, 8), 0.0]
             c['est'] = [loc]
@@ -1279,7 +1286,92 @@ def corpus_cases():
     return out
 
 
+def width_case_violations(w):
+    """'a result marked successful satisfies every stated requirement', the two width requirements, on a plain uniform grid:
+    data of one shape fitted with every peak model (a Gaussian-shaped peak fitted by a pseudo-Voigt comes out with fraction
+    ~ 0, a Lorentzian one with fraction ~ 1), the FWHM of the RETURNED parameters computed here from the shape's own
+    formula (Gaussian 2 sqrt(2 ln 2) sigma; Lorentzian and pseudo-Voigt 2 * scale) and confirmed numerically on eval_peak."""
+    import numpy as np
+    import scipp as sc
+    from scippneutron.peaks import FitRequirements, fit_peaks
+
+    rng = np.random.default_rng(w['np_seed'])
+    h, n = w['step'], w['n']
+    x = w['x0'] + h * np.arange(n)
+    loc = w['x0'] + h * (n // 2) + w['off'] * h
+    fw = w['fwhm_steps'] * h
+    sig, gam = fw / GFWHM, fw / 2
+    g = np.exp(-((x - loc) ** 2) / (2 * sig * sig))
+    l_ = 1.0 / (1.0 + ((x - loc) / gam) ** 2)
+    shape = {'gaussian': g, 'lorentzian': l_, 'pseudo_voigt': w['frac'] * l_ + (1 - w['frac']) * np.exp(-((x - loc) ** 2) * math.log(2) / (gam * gam))}[w['shape']]
+    y = w['amp'] * shape + w['bg0'] + w['bg1'] * (x - x[0]) + rng.normal(0.0, w['noise'], n)
+    da = sc.DataArray(sc.array(dims=['x'], values=y, variances=np.full(n, w['noise'] ** 2), unit='counts'),
+                      coords={'x': sc.array(dims=['x'], values=x, unit='angstrom')})
+    fr = FitRequirements(min_p_value=0.0, min_peak_width_factor=w['fmin'], max_peak_width_factor=w['fmax'])
+    out = []
+    for model in w['models']:
+        (r,) = fit_peaks(da, peak_estimates=sc.array(dims=['x'], values=[loc], unit='angstrom'),
+                         windows=sc.scalar(w['win_steps'] * h, unit='angstrom'), background='linear', peak=model, fit_requirements=fr)
+        if not r.success:
+            out.append((model, r.assessment.name, None))
+            continue
+        pc = PEAK_CODE[type(r.peak).__name__]
+        scale = float(r.popt['peak_scale'].value)
+        fwhm = GFWHM * scale if pc == 1 else 2 * scale
+        lo, hi = (float(t) for t in r.window.values)
+        xs = x[(x >= lo) & (x < hi)]
+        ploc = float(r.popt['peak_loc'].value)
+        # numerical confirmation of the FWHM on the returned peak itself
+        fine = np.linspace(ploc - 3 * fwhm, ploc + 3 * fwhm, 60001)
+        pv = r.eval_peak(sc.array(dims=['x'], values=fine, unit='angstrom')).values
+        above = fine[pv >= pv.max() / 2]
+        measured = float(above[-1] - above[0])
+        bad = None
+        if abs(measured - fwhm) > 1e-3 * fwhm:
+            bad = ('C17:eval-peak-formula', f'FWHM of the returned {model} peak measured on eval_peak is {measured!r}, by the formula {fwhm!r}')
+        elif fwhm < w['fmin'] * spacing_around(xs, ploc):
+            bad = ('C17:success-violates-requirement:too-narrow',
+                   f'{w["shape"]}-shaped peak fitted with {model}: marked successful with FWHM {fwhm / h:.4f} grid steps '
+                   f'(fraction {float(r.popt["peak_fraction"].value) if pc == 3 else "-"}) < min_peak_width_factor {w["fmin"]}')
+        elif fwhm > w['fmax'] * (hi - lo):
+            bad = ('C17:success-violates-requirement:too-wide',
+                   f'{w["shape"]}-shaped peak fitted with {model}: marked successful with FWHM {fwhm!r} > {w["fmax"]} x window {hi - lo!r}')
+        out.append((model, 'success', bad))
+    return out
+
+
+def width_cases(rng, k):
+    out = []
+    for i in range(k):
+        fmin = rng.choice([2.0, 3.0, 4.0])
+        wide = rng.random() < 0.3
+        win = rng.choice([30, 40, 60])
+        fmax = rng.choice([0.2, 0.3]) if wide else 3.0
+        out.append({'kind': 'width', 'np_seed': rng.randrange(2**31), 'step': rng.choice([0.05, 0.01, 1.0]), 'n': 201,
+                    'x0': rng.choice([0.0, 1.0, -5.0]), 'off': rng.uniform(-0.5, 0.5),
+                    'fwhm_steps': (fmax * win * rng.uniform(0.85, 1.15)) if wide else fmin * rng.uniform(0.8, 1.15),
+                    'shape': rng.choice(PEAK_NAMES), 'frac': rng.uniform(0.0, 1.0), 'amp': rng.uniform(30, 80), 'bg0': rng.uniform(2, 6),
+                    'bg1': rng.uniform(-0.1, 0.3), 'noise': rng.choice([0.1, 0.2, 0.5]), 'fmin': fmin, 'fmax': fmax, 'win_steps': win,
+                    'models': list(PEAK_NAMES)})
+    return out
+
+
+def oracle_width(ctx, cases):
+    for w in cases:
+        try:
+            res = width_case_violations(w)
+        except Exception as e:  # noqa: BLE001
+            report(ctx, 'C17:exception:fit_peaks', f'fit_peaks raised {type(e).__name__}: {str(e)[:160]} on a plain single-peak input', w)
+            continue
+        ctx.case(('width', w['np_seed'], w['shape'], w['fwhm_steps']), True)
+        for model, assessment, bad in res:
+            ctx.count(f'oracle:width:{w["shape"]}->{model}:{assessment}')
+            if bad:
+                report(ctx, bad[0], bad[1], w)
+
+
 def oracle(ctx, deep):
+    oracle_width(ctx, width_cases(ctx.rng, 150 if deep else ctx.n(60, 600)))
     general = general_cases(ctx)
     _, targeted, rng = _CASES[ctx.seed]
     extra = targeted_cases(rng, 40) + [gen_case(rng, 200000 + i) for i in range(40)] if deep else []
@@ -1292,12 +1384,14 @@ def oracle(ctx, deep):
 def replay(ctx, payload):
     w = payload.get('witness', {})
     case = w.get('case')
-    if case is None:
-        print('no replayable case in the witness')
-        return False
     key = payload.get('key')
     before = len(ctx.violations)
-    if w.get('kind') == 'remove':
+    if case is None and w.get('kind') != 'width':
+        print('no replayable case in the witness')
+        return False
+    if w.get('kind') == 'width':
+        oracle_width(ctx, [w])
+    elif w.get('kind') == 'remove':
         oracle_remove_case(ctx, case)
     else:
         oracle_case(ctx, case)
